@@ -552,8 +552,10 @@ fn resize_stream<F: Read + Write + Seek>(
 /// Overwrites with zeros the part of a just-grown stream's chain, starting at
 /// `from`, that may still hold stale data.  Mini sectors are not initialized
 /// when they are allocated, so for a mini chain that is everything up to the
-/// new length.  New regular sectors are zero-initialized, so for a regular
-/// chain it is only the remainder of the sector that contains `from`.
+/// new length.  New regular sectors are zero-initialized, but the chain may
+/// already have had sectors beyond the one that contains `from` (a write-back
+/// that failed after extending the chain leaves them behind), so for a regular
+/// chain it is everything up to the new length as well.
 fn zero_fill_stream<F: Read + Write + Seek>(
     minialloc: &mut MiniAllocator<F>,
     start_sector: u32,
@@ -565,15 +567,9 @@ fn zero_fill_stream<F: Read + Write + Seek>(
         chain.seek(SeekFrom::Start(from))?;
         io::copy(&mut io::repeat(0).take(stream_len - from), &mut chain)?;
     } else {
-        let sector_len = minialloc.version().sector_len() as u64;
-        let end = stream_len
-            .min(from.div_ceil(sector_len).saturating_mul(sector_len));
-        if end > from {
-            let mut chain =
-                minialloc.open_chain(start_sector, SectorInit::Zero)?;
-            chain.seek(SeekFrom::Start(from))?;
-            io::copy(&mut io::repeat(0).take(end - from), &mut chain)?;
-        }
+        let mut chain = minialloc.open_chain(start_sector, SectorInit::Zero)?;
+        chain.seek(SeekFrom::Start(from))?;
+        io::copy(&mut io::repeat(0).take(stream_len - from), &mut chain)?;
     }
     Ok(())
 }
